@@ -137,6 +137,24 @@ def scenarios(tier):
                         features={'role': 'relay_then_upstream_close', 'mode': mode, 'flags': fname,
                                   'case': '%s_%s' % (role, cn), '_expect': b''.join(pk),
                                   '_sockbuf': 4096 if big else None, '_bound': 1 if big else None}))
+            # a follow-up request that fails (its upstream refuses / does not resolve, or it names no route) while
+            # the response to the previous one is still queued for a slow client: the proxy ends the connection,
+            # and everything it had already read from the first upstream must still arrive
+            if fname == 'default':
+                rv2 = {'plugins': [plugins.reverse([(r'/rv$', [b'http://up.test/p']), (r'/dead$', [b'http://dead.test/p']),
+                                                    (r'/nodns$', [b'http://nodns.test/p'])], name='VerifRevC07b')]}
+                # (a follow-up naming NO route gets its 404 queued between the relayed bytes: an ordering question
+                # between pipelined responses, which is C04's subject, not a loss of output)
+                for fn, path in (('refused', b'/dead'), ('dnsfail', b'/nodns')):
+                    out.append(Scenario(
+                        '%s/%s/reverse-followup-%s-while-output-queued' % (mode, fname, fn), rvflags, flags_opts=rv2, mode=mode,
+                        clients=[dict(script=[('send', rvreq), ('wait_recv', 2000),
+                                              ('send', b'GET %s HTTP/1.1\r\nHost: front\r\n\r\n' % path)] + wait, read_limit=30000)],
+                        origins={('10.0.0.3', 80): (lambda: HttpOrigin([[b'HTTP/1.1 200 OK\r\nContent-Length: 120000\r\n\r\n' + stamp(120000, 11)]]))},
+                        dns={'up.test': '10.0.0.3', 'dead.test': '10.0.0.4'}, kinds='RS', horizon=20000,
+                        features={'role': 'relay_then_upstream_close', 'mode': mode, 'flags': fname,
+                                  'case': 'reverse_followup_' + fn, '_expect': 'received_from_upstream', '_expect_prefix_only': fn == 'noroute',
+                                  '_sockbuf': 4096, '_bound': 1}))
     for s in out:
         if s.features.get('_bound') is None:
             s.features.pop('_bound', None)
@@ -187,6 +205,10 @@ def check(w):
                 out.append({'symptom': 'reference_output_not_a_valid_response', 'features': {},
                             'detail': {'h11': r['error'], 'got': got[:200]}})
     same = (got == exp) or (f.get('role') == 'static' and norm(got) == norm(exp))
+    if not same and f.get('_expect_prefix_only') and got.startswith(exp):
+        # the proxy's own error response for the failed follow-up may follow the relayed bytes
+        r2 = oracles.parse_response(got[len(exp):])
+        same = bool(r2['ok'] and not r2['trailing'])
     if not same:
         sym = 'output_truncated' if exp.startswith(got) else 'output_corrupt'
         out.append({'symptom': sym, 'features': {},
